@@ -1346,6 +1346,48 @@ DETAIL["c14_args_in_caller_scope"] = lambda k, v, w, has_a, ga: {"source": _ARG_
 CONDITIONS.append({"fn": "c14_args_in_caller_scope", "quick": 60, "thorough": 120})
 
 
+# ---- nested isolated partials (render inside render inside render, macro inside macro): at every depth a name resolves to
+# the partial's own arguments, else to the template's render arguments / globals - never to an enclosing render tag's arguments
+_DP = {"d1": "1[{{ who }}|{{ item }}|{{ forloop.index }}]{% render 'd2' %}", "d2": "2[{{ who }}|{{ item }}]{% render 'd3', mine: who %}",
+       "d3": "3[{{ who }}|{{ item }}|{{ mine }}|{{ forloop.index }}]{% render 'd4' %}", "d4": "4[{{ who }}|{{ item }}|{{ mine }}]"}
+_DENV = Environment(extra=True, loader=_CDL(dict(_DP), auto_reload=False), globals={"item": "env-item"})
+for _n in _DP:
+    _DENV.get_template(_n)
+_D_SRC = ["{% render 'd1', who: a %}", "{% render 'd1' for xs as item %}", "{% render 'd1' with a as who %}", "{% for who in xs %}{% render 'd1' %}{% endfor %}",
+          "{% assign who = a %}{% render 'd1', item: a %}",
+          "{% capture who %}{{ a }}{% endcapture %}{% with item: a %}{% render 'd1', who: who %}{% endwith %}"]
+_D_T = [_DENV.from_string(_s) for _s in _D_SRC]
+
+
+def depth_case(k, a, has_who, gw):
+    data = {"a": a, "xs": [a]}
+    if has_who:
+        data["who"] = gw
+    out = _D_T[k].render(**data)
+    top_who = str(gw) if has_who else ""
+    w1 = str(a) if k in (0, 2, 5) else top_who
+    i1 = str(a) if k in (1, 4) else "env-item"
+    f1 = "1" if k == 1 else ""
+    exp = "1[%s|%s|%s]2[%s|env-item]3[%s|env-item|%s|]4[%s|env-item|]" % (w1, i1, f1, top_who, top_who, top_who, top_who)
+    return out, exp
+
+
+def c14_nested_isolated_partials(k: int, a: int, has_who: bool, gw: int) -> bool:
+    """
+    pre: 0 <= k <= 5 and 0 <= a <= 9 and 10 <= gw <= 19
+    post: _
+    """
+    if excluded("c14_nested_isolated_partials", locals()):
+        return True
+    kk = pick(list(range(len(_D_SRC))), k)
+    out, exp = depth_case(kk, a, has_who, gw)
+    return finish(out == exp)
+
+
+DETAIL["c14_nested_isolated_partials"] = lambda k, a, has_who, gw: {"source": _D_SRC[k], "partials": _DP, "observed_expected": depth_case(k, a, has_who, gw)}
+CONDITIONS.append({"fn": "c14_nested_isolated_partials", "quick": 60, "thorough": 120})
+
+
 ASSUMPTIONS = [
     "template sources are concrete skeletons generated in harness/c14.py (the name x bound by for, tablerow, with, macro, capture, assign, include, render, increment, decrement in every nesting order of two, thorough: three); the bound values, the four global layers' values and their presence are symbolic",
     "values are strings of length <= 1 (symbolic ints would be realised by str()); falsy non-string values come from a pool (c14_falsy_layers)",
